@@ -98,13 +98,21 @@ def directed():
              {"op": "restore", "w": "w1"}, {"op": "rotate", "m": "ma", "fee": 0}, {"op": "mint", "w": "w1", "m": "ma", "amt": 31},
              {"op": "restore", "w": "w1"}]
     hs.append({"mints": two[:1], "wallets": ws[:2], "ops": many})
+    # proofs on the old and on the new keyset after a rotation, spent together: sends around and above what the old keyset holds
+    for fee in (0, 100):
+        for old, new, amts in ((3, 12, (4, 2, 5)), (7, 9, (8, 3)), (5, 10, (6, 6)), (1, 14, (2, 9)), (15, 16, (16, 10))):
+            ops = [{"op": "mint", "w": "w1", "m": "ma", "amt": old}, {"op": "rotate", "m": "ma", "fee": fee}, {"op": "mint", "w": "w1", "m": "ma", "amt": new}]
+            for i, a in enumerate(amts):
+                ops += [{"op": "send", "w": "w1", "m": "ma", "amt": a, "fees": i == 1}, {"op": "receive", "w": "w2", "tok": "t%d" % (i + 1)}]
+            ops += [{"op": "melt", "w": "w1", "m": "ma", "amt": 2}, {"op": "restore", "w": "w1"}]
+            hs.append({"mints": [{"name": "ma", "fee": fee, "policy": "min1"}, two[1]], "wallets": ws[:2], "ops": ops})
     return hs
 
 
 def check(prop, profile=None, num=None, max_ops=18, fees=(0, 100, 1000), two_mints=True, given=None, level="model_checking", rule=None,
-          extra_cov=None, mint_amts=(5, 21, 64, 100, 333), collect=False, with_directed=True):
+          extra_cov=None, mint_amts=(5, 21, 64, 100, 333), collect=False, with_directed=True, sub=""):
     t0 = time.time()
-    d = rundir("%s_%s" % (prop, tier()))
+    d = rundir("%s%s_%s" % (prop, sub, tier()))
     sd = spec_copy(d)
     if num is None:
         num = 60 if tier() == "quick" else 1500
